@@ -82,13 +82,31 @@ def _flatten(prefix, v, out):
 
 
 def rowlocal(u, name, make_inputs, call, requires=None, tags=("C04",), skip_outputs=()):
-    """make_inputs(u, B) -> dict/TD of batch-first inputs; call(u, inputs) -> outputs (TD/tensor/dict)."""
+    """make_inputs(u, B) -> dict/TD of batch-first inputs; call(u, inputs) -> outputs (TD/tensor/dict).
+
+    Run L has batch size B_L, run R batch size B_R (independent, >= 1). Row rowR of R is *defined* to be
+    row rowL of L (same terms; every other row of both batches is arbitrary), which is exactly the
+    hypothesis "the two rows carry the same instance and state". Goal: all outputs of the two rows agree."""
     ctx = cur()
+    ctx.prefix = "L_"
+    BL = u.dim("B")
+    ctx.prefix = "R_"
+    BR = u.dim("B")
+    ctx.prefix = ""
+    bL = z3.Int(f"{name}.rowL")
+    bR = z3.Int(f"{name}.rowR")
+    ctx.scalars[f"{name}.rowL"] = (bL, "i")
+    ctx.scalars[f"{name}.rowR"] = (bR, "i")
+    u.requires(AND(bL >= 0, bL < zint(BL), bR >= 0, bR < zint(BR)))
     sides = {}
-    for side in ("L", "R"):
+    for side, Bs in (("L", BL), ("R", BR)):
         ctx.prefix = side + "_"
-        Bs = u.dim("B")
+        if side == "R":
+            ctx.row_alias = {"src": sides["L"][3], "row": bR, "src_row": bL}
         ins = make_inputs(u, Bs)
+        ctx.row_alias = None
+        named = {}
+        _flatten_named("", u.snapshot(ins), named)
         if requires is not None:
             u.requires(requires(u, ins, Bs))
         pre = {}
@@ -96,21 +114,9 @@ def rowlocal(u, name, make_inputs, call, requires=None, tags=("C04",), skip_outp
         outs_raw = call(u, ins)
         outs = {}
         _flatten("", outs_raw, outs)
-        sides[side] = (Bs, pre, outs)
+        sides[side] = (Bs, pre, outs, named)
     ctx.prefix = ""
-    (BL, preL, outL), (BR, preR, outR) = sides["L"], sides["R"]
-    bL = z3.Int(f"{name}.rowL")
-    bR = z3.Int(f"{name}.rowR")
-    ctx.scalars[f"{name}.rowL"] = (bL, "i")
-    ctx.scalars[f"{name}.rowR"] = (bR, "i")
-    u.requires(AND(bL >= 0, bL < zint(BL), bR >= 0, bR < zint(BR)))
-    # hypothesis: the two rows carry the same instance/state
-    for k, xl in preL.items():
-        xr = preR[k]
-        if not isinstance(xl, SymTensor):
-            continue
-        rest = xl.shape[1:]
-        u.requires(u.forall(rest, lambda *I, xl=xl, xr=xr: xl.at(bL, *I) == xr.at(bR, *I)))
+    outL, outR = sides["L"][2], sides["R"][2]
     for k, ol in outL.items():
         if k in skip_outputs:
             continue
@@ -139,6 +145,23 @@ def rowlocal(u, name, make_inputs, call, requires=None, tags=("C04",), skip_outp
                 rng.append(z3.And(v >= 0, v < zint(n)))
         gl, gr = ol.at(bL, *I), orr.at(bR, *I)
         u.prove(f"{name}.rowlocal.{k}.elem", IMPL(AND(*rng), B_(gl) == B_(gr) if ol.dtype == "b" else gl == gr), tags)
+
+
+def _flatten_named(prefix, v, out):
+    """input tensors by their declared (unprefixed) names."""
+    if isinstance(v, SymTD):
+        for k, x in v.data.items():
+            _flatten_named(prefix, x, out)
+    elif isinstance(v, SymTensor):
+        nm = v.name or ""
+        if nm.startswith("L_"):
+            out[nm[2:]] = v
+    elif isinstance(v, dict):
+        for k, x in v.items():
+            _flatten_named(prefix, x, out)
+    elif isinstance(v, (list, tuple)):
+        for x in v:
+            _flatten_named(prefix, x, out)
 
 
 def depot_tour_reward_unit(u, file, qual, clsname, tags=("C03",), static=False):
